@@ -68,7 +68,7 @@ inductive Built [Zero K] (cb : Cb α K) : List α → Tree α K → Prop where
       Built cb items (.node vp (cb.dist vp m) l r)
 
 /-- executable `buildFromPoints`; returns the tree and the position in the draw stream.
-    `fuel` bounds the recursion depth (`items.length` suffices: `build_fuel`). -/
+    `fuel` bounds the recursion depth (`items.length` suffices: `build_built`). -/
 def build [Zero K] (cb : Cb α K) (draws : List Nat) : Nat → Nat → List α → Tree α K × Nat
   | 0, pos, _ => (.nil, pos)
   | fuel + 1, pos, items =>
